@@ -77,3 +77,129 @@ P.fn('plasTeX/__init__.py::numToRoman',
          4: Loop(inv=['0 <= number', 'number < 9', LEM, INV], decreases='number'),
          5: Loop(inv=['0 <= number', 'number < 4', LEM, INV], decreases='number'),
      })
+
+# ------------------------------------------------------------------ Counter objects
+P.cls('Counter', fields=dict(name='str', resetby='str?', value='int', counters='dict[str,Counter]'),
+      props={'arabic': 'Counter.arabic', 'Roman': 'Counter.Roman', 'roman': 'Counter.roman',
+             'Alph': 'Counter.Alph', 'alph': 'Counter.alph', 'fnsymbol': 'Counter.fnsymbol'})
+P.const('encoding.stringletters()', 'abcdefghijklmnopqrstuvwxyzABCDEFGHIJKLMNOPQRSTUVWXYZ')
+P.uninterp('RANKN', ['str'], 'int')   # ghost: rank of a counter name in the (acyclic) within-relation
+P.uninterp('MAXR', [], 'int')
+
+
+@P.spec(heap=True, fuel=1)
+def WITHIN(c: 'Counter', top: 'str', cs: 'dict[str,Counter]') -> 'bool':
+    """Stepping the counter named `top` resets c: c's reset-by chain reaches `top` (LaTeX: declared within, transitively)."""
+    if not c.resetby:
+        return False
+    if c.resetby == top:
+        return True
+    if c.resetby not in cs:
+        return False
+    return WITHIN(cs[unopt(c.resetby)], top, cs)
+
+
+@P.spec(heap=True, fuel=1)
+def DANC(c: 'Counter', top: 'str', cs: 'dict[str,Counter]') -> 'Counter':
+    """The ancestor of c (or c itself) that is directly within `top`."""
+    if c.resetby == top:
+        return c
+    return DANC(cs[unopt(c.resetby)], top, cs)
+
+
+# well-formed counter table: keyed by name, all counters share the table, within-relation acyclic (ranked)
+WF = ['all(implies(k in cs, cs[k].name == k and cs[k].counters is cs) for k in Strs())',
+      'all(implies(k in cs and cs[k].resetby, RANKN(unopt(cs[k].resetby)) > RANKN(k)) for k in Strs())',
+      'all(0 <= RANKN(k) and RANKN(k) <= MAXR() for k in Strs())']
+WFS = [w.replace('cs', 'self.counters') for w in WF]
+
+RESET_POST = ('all(implies(k in self.counters, self.counters[k].value == '
+              '(0 if (self.name != "" and WITHIN(self.counters[k], self.name, self.counters)) else old(self.counters[k].value)))'
+              ' for k in Strs())')
+MODV = [Mod('value', 'any(k in self.counters and r is self.counters[k] for k in Strs())')]
+
+INDICT = 'c.name in cs and cs[c.name] is c'
+P.lemma('UP', dict(c='Counter', dname='str', top='str', cs='dict[str,Counter]'),
+        requires=WF + [INDICT, 'top != ""', 'dname in cs', 'cs[dname].resetby == top', 'WITHIN(c, dname, cs)'],
+        ensures=['WITHIN(c, top, cs)'],
+        decreases='MAXR() - RANKN(c.name)',
+        body="""
+assert WITHIN(cs[dname], top, cs)
+if c.resetby == dname:
+    pass
+else:
+    p = cs[c.resetby]
+    UP(p, dname, top, cs)
+""")
+P.lemma('DOWN', dict(c='Counter', top='str', cs='dict[str,Counter]'),
+        requires=WF + [INDICT, 'WITHIN(c, top, cs)'],
+        ensures=['DANC(c, top, cs).name in cs', 'cs[DANC(c, top, cs).name] is DANC(c, top, cs)',
+                 'DANC(c, top, cs).resetby == top',
+                 'c is DANC(c, top, cs) or WITHIN(c, DANC(c, top, cs).name, cs)'],
+        decreases='MAXR() - RANKN(c.name)',
+        body="""
+if c.resetby == top:
+    pass
+else:
+    p = cs[c.resetby]
+    DOWN(p, top, cs)
+    d = DANC(p, top, cs)
+    assert DANC(c, top, cs) is d
+    if p is d:
+        assert WITHIN(c, d.name, cs)
+    else:
+        assert WITHIN(p, d.name, cs)
+        assert WITHIN(c, d.name, cs)
+""")
+
+P.lemma('NOEMPTY', dict(c='Counter', cs='dict[str,Counter]'),
+        requires=WF + [INDICT], ensures=['not WITHIN(c, "", cs)'],
+        decreases='MAXR() - RANKN(c.name)',
+        body="""
+if not c.resetby:
+    pass
+elif c.resetby not in cs:
+    pass
+else:
+    NOEMPTY(cs[c.resetby], cs)
+""")
+
+DIRECT = '(bool(%s.resetby) and self.name != "" and %s.resetby == self.name)'
+P.fn('plasTeX/__init__.py::Counter.resetcounters', name='Counter.resetcounters',
+     params=dict(self='Counter'), returns='none',
+     requires=WFS, ensures=[RESET_POST], modifies=MODV, allocates=True, decreases='RANKN(self.name)',
+     loops={0: Loop(index='i', seq='vs', inv=[
+         'all(vs[j].name in self.counters and self.counters[vs[j].name] is vs[j] for j in range(len(vs)))',
+         'all(implies(k in self.counters, any(vs[j] is self.counters[k] for j in range(len(vs)))) for k in Strs())',
+         'all(implies(k in self.counters, self.counters[k].value == 0 or self.counters[k].value == old(self.counters[k].value)) for k in Strs())',
+         'all(implies(k in self.counters and not (self.name != "" and WITHIN(self.counters[k], self.name, self.counters)),'
+         ' self.counters[k].value == old(self.counters[k].value)) for k in Strs())',
+         'all(implies(' + DIRECT % ('vs[j]', 'vs[j]') + ', vs[j].value == 0) for j in range(i))',
+         'all(implies(' + DIRECT % ('vs[j]', 'vs[j]') + ' and k in self.counters and WITHIN(self.counters[k], vs[j].name, self.counters), '
+         'self.counters[k].value == 0) for j in range(i) for k in Strs())',
+     ], at_end=['all(implies(k in self.counters, UP(self.counters[k], counter.name, self.name, self.counters)) for k in Strs())',
+              'all(implies(k in self.counters, NOEMPTY(self.counters[k], self.counters)) for k in Strs())'])},
+     at_exit=['all(implies(k in self.counters, DOWN(self.counters[k], self.name, self.counters)) for k in Strs())'])
+for nm, delta in (('stepcounter', 'old(self.value) + 1'), ('setcounter', 'other'), ('addtocounter', 'old(self.value) + other')):
+    P.fn('plasTeX/__init__.py::Counter.%s' % nm, name='Counter.%s' % nm,
+         params=dict(self='Counter', other='int') if nm != 'stepcounter' else dict(self='Counter'), returns='none',
+         requires=WFS + ['not WITHIN(self, self.name, self.counters)'],
+         ensures=['self.value == ' + delta,
+                  'all(implies(k in self.counters and self.counters[k] is not self, self.counters[k].value == '
+                  '(0 if (self.name != "" and WITHIN(self.counters[k], self.name, self.counters)) else old(self.counters[k].value)))'
+                  ' for k in Strs())'],
+         modifies=MODV + [Mod('value', 'r is self')], allocates=True)
+
+P.fn('plasTeX/__init__.py::Counter.arabic', name='Counter.arabic', params=dict(self='Counter'), returns='str',
+     ensures=['result == int_to_str(self.value)'], kind='property')
+P.fn('plasTeX/__init__.py::Counter.Roman', name='Counter.Roman', params=dict(self='Counter'), returns='str',
+     requires=['self.value >= 0'], ensures=['result == ROMAN(self.value)'], kind='property',
+     calls={'numToRoman': 'numToRoman'})
+P.fn('plasTeX/__init__.py::Counter.roman', name='Counter.roman', params=dict(self='Counter'), returns='str',
+     requires=['self.value >= 0'], ensures=['result == str_lower(ROMAN(self.value))'], kind='property')
+P.fn('plasTeX/__init__.py::Counter.Alph', name='Counter.Alph', params=dict(self='Counter'), returns='str',
+     requires=['1 <= self.value', 'self.value <= 26'], ensures=['result == chr(64 + self.value)'], kind='property')
+P.fn('plasTeX/__init__.py::Counter.alph', name='Counter.alph', params=dict(self='Counter'), returns='str',
+     requires=['1 <= self.value', 'self.value <= 26'], ensures=['result == chr(96 + self.value)'], kind='property')
+P.fn('plasTeX/__init__.py::Counter.fnsymbol', name='Counter.fnsymbol', params=dict(self='Counter'), returns='str',
+     ensures=['result == rep("*", self.value)'], kind='property')
